@@ -369,15 +369,19 @@ def outer():
 '''
 _nns: Dict[str, Any] = {}
 exec(compile(_NEST_SRC, "<nest>", "exec"), _nns)
+# the same source compiled and executed a second time: equal-but-distinct code objects at every level
+_nns2: Dict[str, Any] = {}
+exec(compile(_NEST_SRC, "<nest>", "exec"), _nns2)
+assert _nns["outer"].__code__ == _nns2["outer"].__code__ and _nns["outer"].__code__ is not _nns2["outer"].__code__
 NEST_PATHS = [
     (), ("f",), ("g",), ("K",), ("f", "g"), ("f", "K"), ("f", "g", "f"), ("f", "K", "m"), ("f", "K", "m", "g"),
     ("f", "K", "f"), ("K", "m"), ("m",), ("f", "m"), ("K", "f"), ("g", "f"), ("f", "f"), ("x",),
 ]
 
 
-def _resolve_by_running(path: Tuple[str, ...]) -> Any:
+def _resolve_by_running(path: Tuple[str, ...], ns: Optional[Dict[str, Any]] = None) -> Any:
     """Independent oracle: obtain the function objects by actually running the code."""
-    outer = _nns["outer"]
+    outer = (ns or _nns)["outer"]
     if not path:
         return outer.__code__
     f, g, K = outer()
@@ -404,14 +408,28 @@ def _resolve_by_running(path: Tuple[str, ...]) -> Any:
     return cur.__code__
 
 
-def nested_case(pi: int, wrap: int) -> Optional[str]:
+def nested_case(pi: int, wrap: int, twin_order: int = 0) -> Optional[str]:
+    """twin_order 0: the first copy only; 1: look the path up on copy one, then check copy two;
+    2: the other way round (a lookup on a merely-equal code object must not influence this one)."""
     path = NEST_PATHS[pi]
-    target: Any = _nns["outer"]
+    if twin_order:
+        first, second = (_nns, _nns2) if twin_order == 1 else (_nns2, _nns)
+        try:
+            get_code(first["outer"], *path)
+        except Exception:
+            pass
+        why = _nested_one(path, wrap, second)
+        return ("after a lookup on an equal-but-distinct copy: " + why) if why else None
+    return _nested_one(path, wrap, _nns)
+
+
+def _nested_one(path: Tuple[str, ...], wrap: int, ns: Dict[str, Any]) -> Optional[str]:
+    target: Any = ns["outer"]
     if wrap == 1:
         target = functools.partial(target)
     elif wrap == 2:
         target = target.__code__
-    exp = _resolve_by_running(path)
+    exp = _resolve_by_running(path, ns)
     try:
         got = get_code(target, *path)
     except ValueError:
@@ -436,10 +454,11 @@ def _s3(sh: Dict[str, Any]) -> Dict[str, Any]:
         if e.flag("nested_names"):
             pi = e.choice("path", len(NEST_PATHS))
             wrap = e.choice("wrap", 3)
-            why = nested_case(pi, wrap)
+            tw = e.choice("twin_order", 3)
+            why = nested_case(pi, wrap, tw)
             reached[0] += 1
             if why and len(cex) < 3:
-                cex.append({"ob": 3, "path": pi, "wrap": wrap, "why": why})
+                cex.append({"ob": 3, "path": pi, "wrap": wrap, "twin": tw, "why": why})
             return
         depth = e.choice("depth", sh["maxdepth"] + 1)
         layers = [e.choice(f"layer{j}", len(LAYERS)) for j in range(depth)]
@@ -584,7 +603,7 @@ def replay(case: Dict[str, Any]) -> Dict[str, Any]:
     elif ob == 2:
         why = dispatch_case([tuple(r) for r in case["regs"]], case["via_frames"])
     elif ob == 3:
-        why = nested_case(case["path"], case["wrap"]) if "path" in case else tower_case(case["layers"])
+        why = nested_case(case["path"], case["wrap"], case.get("twin", 0)) if "path" in case else tower_case(case["layers"])
     else:
         why = customize_case(case["hide"], case["hide_line"], case["prune"], case["elaborate"], case["form"])
     return {"status": "reproduces" if why else "not-reproduced", "detail": why}
